@@ -505,3 +505,25 @@ Bytes dns_rebuild(const DnsMsg &m)
 	for (auto &r : m.ar) put_rr(r);
 	return b;
 }
+
+// ------------------------------------------------------------------ tunnel-domain matcher (plain and "*."-wildcard server domains)
+// data_len = number of characters of qname in front of the matched domain (including the separating dot), as the server counts it
+bool tunnel_domain_match(const std::string &qname, const std::string &srv_domain, size_t &data_len)
+{
+	auto lc = [](std::string x) { for (auto &c : x) c = (char)tolower((unsigned char)c); return x; };
+	std::string q = lc(qname), d = lc(srv_domain);
+	bool wild = d.size() > 2 && d[0] == '*' && d[1] == '.';
+	std::string tail = wild ? d.substr(1) : d;        // ".x.y" or "x.y"
+	if (!wild) {
+		if (q == tail) { data_len = 0; return true; }
+		if (q.size() > tail.size() && q.compare(q.size() - tail.size(), tail.size(), tail) == 0 && q[q.size() - tail.size() - 1] == '.') { data_len = q.size() - tail.size(); return true; }
+		return false;
+	}
+	if (q.size() <= tail.size() || q.compare(q.size() - tail.size(), tail.size(), tail) != 0) return false;
+	std::string head = q.substr(0, q.size() - tail.size());
+	size_t dot = head.rfind('.');
+	std::string label = dot == std::string::npos ? head : head.substr(dot + 1);
+	if (label.empty() || label.find('*') != std::string::npos) return false;
+	data_len = dot == std::string::npos ? 0 : dot + 1;
+	return true;
+}
